@@ -129,6 +129,7 @@ impl<'a> Worker<'a> {
                     // a file that the configuration excludes is not read at all: whatever
                     // it contains cannot make the run fail
                     log::trace!("[{}] skip file", source_display);
+                    work_item.skipped = true;
                     work_item.status = WorkStatus::done();
                     return Ok(());
                 }
@@ -364,6 +365,7 @@ impl<'a> Worker<'a> {
 
         self.cache
             .link_source_to_output(normalized_source, work_item.data.output());
+        work_item.output_written = true;
 
         work_item.status = WorkStatus::done();
         Ok(())
